@@ -11,20 +11,27 @@ Import ListNotations.
 
 (* ---- sliceArrayOperator: .[first:second] ---------------------------- *)
 
-(* under the guard (first bound not left of the array, or empty range) the
-   slice loop never indexes out of range *)
-Theorem C11_slice_no_panic_guarded : forall (A : Type) (content : list A) (first second : Z),
-  slice_guard (Z.of_nat (length content)) first second ->
-  exists r, slice_array content first second = Ok r.
-Proof. exact @slice_guarded_ok. Qed.
-Print Assumptions C11_slice_no_panic_guarded.
+(* since fix cbdb35c (start clamped to 0) the slice loop never indexes out of
+   range: for every content and every pair of bounds the result is the
+   sub-list between the normalised bounds *)
+Theorem C11_slice_no_panic : forall (A : Type) (content : list A) (first second : Z) (s : psite),
+  slice_array content first second <> Panic s.
+Proof. exact @slice_array_no_panic. Qed.
+Print Assumptions C11_slice_no_panic.
 
-(* the guard is the exact complement of the panic condition *)
-Theorem C11_slice_guard_exact : forall (A : Type) (content : list A) (first second : Z),
-  (exists s, slice_array content first second = Panic s) <->
-  ~ slice_guard (Z.of_nat (length content)) first second.
-Proof. exact @slice_panic_iff. Qed.
-Print Assumptions C11_slice_guard_exact.
+Theorem C11_slice_result : forall (A : Type) (content : list A) (first second : Z),
+  let len := Z.of_nat (length content) in
+  let rf := slice_rel_first len first in
+  let rs := slice_rel_second len second in
+  slice_array content first second = Ok (firstn (Z.to_nat (rs - rf)) (skipn (Z.to_nat rf) content)).
+Proof. exact @slice_array_spec. Qed.
+Print Assumptions C11_slice_result.
+
+(* slicing a map is an error (fix ed8fc74), anything else goes through slice_array *)
+Theorem C11_slice_node_no_panic : forall (A : Type) (is_map : bool) (content : list A) (first second : Z) (s : psite),
+  slice_node is_map content first second <> Panic s.
+Proof. exact @slice_node_no_panic. Qed.
+Print Assumptions C11_slice_node_no_panic.
 
 (* the variant evaluated by the correspondence check is the same function *)
 Theorem C11_slice_exec_eq : forall (A : Type) (content : list A) (first second : Z),
@@ -32,11 +39,12 @@ Theorem C11_slice_exec_eq : forall (A : Type) (content : list A) (first second :
 Proof. exact @slice_array_exec_eq. Qed.
 Print Assumptions C11_slice_exec_eq.
 
-(* .[-5:1] on [1,2] : index out of range at operator_slice.go:56 *)
-Theorem C11_panic_slice_refuted : exists (content : list Z) (first second : Z),
-  slice_array content first second = Panic SliceContent.
-Proof. exists [1; 2]%Z, (-5)%Z, 1%Z. vm_compute. reflexivity. Qed.
-Print Assumptions C11_panic_slice_refuted.
+(* the clamp is what the theorem rests on: the loop entered at a negative
+   index (.[-5:1] on [1,2] before the fix) panics at once *)
+Theorem C11_slice_unclamped_refuted : forall (A : Type) (content : list A) (n : nat) (i : Z),
+  (i < 0)%Z -> slice_loop (S n) i content = Panic SliceContent.
+Proof. exact @slice_loop_unclamped_panics. Qed.
+Print Assumptions C11_slice_unclamped_refuted.
 
 (* getSliceNumber: Front().Value is protected by the Len() != 1 test *)
 Theorem C11_slice_number_front_unreachable : forall (results : list str) (s : psite),
@@ -65,48 +73,46 @@ Theorem C11_traverse_rhs_front_unreachable : forall (A : Type) (context : list A
 Proof. exact @traverse_rhs_no_panic. Qed.
 Print Assumptions C11_traverse_rhs_front_unreachable.
 
-(* "bounded time" fails for the padding loop: a 19-byte index makes it run
-   2^63 times (the hang  .[9223372036854775807]) *)
-Theorem C11_index_padding_unbounded_refuted : exists (text : str) (index : Z),
-  length text = 19%nat /\ parse_int64 text = Some index /\
-  (Z.of_nat (pad_count 0 index) >= 2 ^ 62)%Z.
-Proof.
-  exists (str_of_string "9223372036854775807"%string), 9223372036854775807%Z.
-  split; [reflexivity|]. split; [vm_compute; reflexivity|].
-  rewrite pad_count_Z. vm_compute. discriminate.
-Qed.
-Print Assumptions C11_index_padding_unbounded_refuted.
+(* since fix abd2cdf the padding loop adds at most pad_limit = 10^6 nodes
+   (.[9223372036854775807] is an error now) *)
+Theorem C11_index_padding_bounded : forall (A : Type) (null : A) (content : list A) (index : Z) (x : A) (padded : list A),
+  traverse_index null content index = Ok (x, padded) ->
+  (Z.of_nat (length padded) <= Z.of_nat (length content) + pad_limit)%Z.
+Proof. exact @traverse_index_padding_bounded. Qed.
+Print Assumptions C11_index_padding_bounded.
 
 (* ---- collectObjectOperator: rotation --------------------------------- *)
 
-Theorem C11_collect_object_no_panic_guarded : forall (A : Type) (cands : list (list A)),
-  rotate_guard cands -> exists r, rotate cands = Ok r.
-Proof. exact @rotate_guarded_ok. Qed.
-Print Assumptions C11_collect_object_no_panic_guarded.
+(* since fix 8c76b15 (entries shorter than the first one are an error) *)
+Theorem C11_collect_object_no_panic : forall (A : Type) (cands : list (list A)) (s : psite),
+  rotate cands <> Panic s.
+Proof. exact @rotate_no_panic. Qed.
+Print Assumptions C11_collect_object_no_panic.
 
-(* a later candidate with fewer children than the first one *)
-Theorem C11_panic_collect_object_refuted : exists cands : list (list Z),
-  rotate cands = Panic CollectObjectContent.
-Proof. exists [[1; 2]; []]%Z. vm_compute. reflexivity. Qed.
-Print Assumptions C11_panic_collect_object_refuted.
+(* the unchecked column access (the code before the fix) panics as soon as a
+   later candidate is shorter *)
+Theorem C11_collect_object_unchecked_refuted : forall (A : Type) (cands : list (list A)) (i : Z),
+  (0 <= i)%Z -> Exists (fun c => (Z.of_nat (length c) <= i)%Z) cands ->
+  rotate_column cands i = Panic CollectObjectContent.
+Proof. exact @rotate_column_panic. Qed.
+Print Assumptions C11_collect_object_unchecked_refuted.
 
 (* (the sort comparator's panic(err) calls were removed from /repo by a fix
    commit; its panic-freedom is now a theorem of property C15) *)
 
 (* ---- repeatString ----------------------------------------------------- *)
 
-Theorem C11_repeat_guard_exact : forall mem slen count : Z,
-  (exists s, repeat_string mem slen count = Panic s) <->
-  (0 <= count <= repeat_limit /\ slen * count > mem)%Z.
-Proof. exact repeat_panic_iff. Qed.
-Print Assumptions C11_repeat_guard_exact.
+(* since fix e5c76bb (product limit) no allocation above 10^8 bytes is asked for *)
+Theorem C11_repeat_no_panic : forall (mem slen count : Z) (s : psite),
+  (repeat_bytes_limit <= mem)%Z -> (0 <= slen)%Z -> repeat_string mem slen count <> Panic s.
+Proof. exact repeat_no_panic. Qed.
+Print Assumptions C11_repeat_no_panic.
 
-(* ("x" * 10000000) * 10000000 : the count limit does not bound the product;
-   10^14 bytes exceed any block a 47-bit address space can hold *)
-Theorem C11_panic_repeat_alloc_refuted : exists slen count : Z,
-  repeat_string (2 ^ 46) slen count = Panic RepeatAlloc.
-Proof. exists 10000000%Z, 10000000%Z. vm_compute. reflexivity. Qed.
-Print Assumptions C11_panic_repeat_alloc_refuted.
+(* the limit on the count alone did not bound the product *)
+Theorem C11_repeat_count_limit_refuted :
+  exists slen count, (0 <= count <= repeat_limit)%Z /\ (slen * count > 2 ^ 46)%Z.
+Proof. exact repeat_count_limit_insufficient. Qed.
+Print Assumptions C11_repeat_count_limit_refuted.
 
 (* ---- matchKey / deepMatch: termination -------------------------------- *)
 
@@ -123,8 +129,10 @@ Theorem C11_alias_unfold_total_acyclic : forall (env : nat -> option anode) (n :
 Proof. exact unfold_acyclic_total. Qed.
 Print Assumptions C11_alias_unfold_total_acyclic.
 
-(* `- &a [*a]` decodes to a graph that is not acyclic, and following it never
-   ends, whatever the fuel *)
+(* a graph in which an alias points to a node that contains it is not
+   acyclic, and following it never ends, whatever the fuel.  The YAML reader
+   rejects such documents since fix c43bba9 (`- &a [*a]`); assignments can
+   still build one (.b = .d with d: *x and b: &x), which stays a known finding *)
 Theorem C11_alias_cycle_refuted :
   ~ acyclic self_ref_env /\ forall fuel, unfold fuel self_ref_env (AAlias 0) = OutOfFuel.
 Proof.
@@ -134,15 +142,11 @@ Print Assumptions C11_alias_cycle_refuted.
 
 (* non-vacuity: the guards are satisfiable and the models compute *)
 Example C11_example :
-  slice_guard 2 (-2) 5 /\ slice_array [10; 20]%Z (-2) 5 = Ok [10; 20]%Z /\
+  slice_array [10; 20]%Z (-2) 5 = Ok [10; 20]%Z /\ slice_array [1; 2]%Z (-5) 1 = Ok [1]%Z /\
   traverse_index (-1)%Z [10; 20]%Z 3 = Ok ((-1)%Z, [10; 20; -1; -1]%Z) /\
   traverse_index (-1)%Z [10; 20]%Z (-3) = Err /\
   match_key (str_of_string "a.b.c"%string) (str_of_string "a*c"%string) = Ok true /\
   match_key (str_of_string "abc"%string) (str_of_string "a*d"%string) = Ok false /\
   parse_int64 (str_of_string "0x1_0"%string) = Some 16%Z /\
-  rotate_guard [[1; 2]; [3; 4]]%Z.
-Proof.
-  repeat split; try (vm_compute; reflexivity).
-  - left. vm_compute. discriminate.
-  - cbn. repeat constructor.
-Qed.
+  rotate [[1; 2]; []]%Z = Err /\ traverse_index (-1)%Z [10; 20]%Z 9223372036854775807 = Err.
+Proof. repeat split; vm_compute; reflexivity. Qed.
